@@ -1,4 +1,5 @@
 import JobShopModel.Staged
+import JobShopModel.Rules
 /-!
 # Line-protocol driver for the executable model
 
@@ -136,6 +137,42 @@ def fmtTrace (w : World) : String :=
     | .update x _ => s!"{id}:U{opId w.cfg.I (x.job, x.pos)}"
     | .reset _ => s!"{id}:R")
 
+def parseScoreFn : String → Option ScoreFn
+  | "spt" => some .spt
+  | "fcfs" => some .fcfs
+  | "mwkr" => some .mwkr
+  | "mor" => some .mor
+  | _ => none
+
+def parseRule (t : String) : Option RuleKind :=
+  match t with
+  | "spt" => some .spt
+  | "fcfs" => some .fcfs
+  | "mwkr" => some .mwkr
+  | "mor" => some .mor
+  | "random" => some .random
+  | "omwkr" => some .observerMwkr
+  | _ =>
+    if t.startsWith "sb:" then (parseScoreFn (t.drop 3).toString).map .scoreBased
+    else if t.startsWith "tb:" then
+      let parts := ((t.drop 3).toString.splitOn ",").filter (· ≠ "")
+      (parts.mapM parseScoreFn).map .tieBreak
+    else none
+
+def parseChooser : String → Option Chooser
+  | "first" => some .first
+  | "random" => some .random
+  | _ => none
+
+/-- run the solver from a fresh dispatcher, logging the selections -/
+def solveTrace (c : Cfg) (rule : RuleKind) (ch : Chooser) : Nat → State → List Nat → List String → Option (State × List String)
+  | 0, s, _, acc => if isComplete c.I s then some (s, acc) else none
+  | fuel + 1, s, draws, acc =>
+    if isComplete c.I s then some (s, acc) else
+    match solverStep c rule ch s draws with
+    | none => none
+    | some (s', r, m, draws') => solveTrace c rule ch fuel s' draws' (acc ++ [s!"{opId c.I r}:{m}"])
+
 def step (w : World) (line : String) : World × String :=
   match toks line with
   | "inst" :: n :: rest =>
@@ -199,6 +236,29 @@ def step (w : World) (line : String) : World × String :=
     | some id => (match w.resubscribe id with | (w', true) => (w', "ok") | (w', false) => (w', "raise"))
     | none => (w, "bad-op")
   | "mark" :: _ => (w, "ok")
+  | "rule" :: r :: rest =>
+    match parseRule r with
+    | some rule =>
+      let draw := (rest.head?.bind String.toNat?).getD 0
+      (match selectOp w.cfg w.s rule draw with
+       | some x => (w, toString (opId w.cfg.I x))
+       | none => (w, "raise"))
+    | none => (w, "bad-op")
+  | ["scores", f] =>
+    match parseScoreFn f with
+    | some fn => (w, lst (fmtInts ((List.range w.cfg.I.length).map (score w.cfg w.s fn))))
+    | none => (w, "bad-op")
+  | "solve" :: r :: ch :: draws =>
+    match parseRule r, parseChooser ch, nats? draws with
+    | some rule, some chooser, some ds =>
+      (match solveTrace w.cfg rule chooser (numOps w.cfg.I + 1) (init w.cfg.I) ds [] with
+       | some (s', tr) => (w, s!"ok {" ".intercalate tr} ; {makespan s'} {isComplete w.cfg.I s'}")
+       | none => (w, "raise"))
+    | _, _, _ => (w, "bad-op")
+  | ["elapsed", t0, t1] =>
+    match t0.toInt?, t1.toInt? with
+    | some a, some b => (w, s!"{elapsedTime a b} DispatchingRuleSolver")
+    | _, _ => (w, "bad-op")
   | ["wsnap"] => (w, worldSnapshot w)
   | ["trace"] => (w, lst (fmtTrace w))
   | ["snap"] => (w, snapshot w)
